@@ -407,28 +407,35 @@ template <class D> struct DomHist : Exec {
 
   void observe_all() {
     for (int i = 0; i < NP; ++i) if (X[i]) J.line("obs " + std::to_string(i) + val_str(*X[i]));
-    J.line("obs " + std::to_string(S_CS) + val_str(CS));
-    J.line("obs " + std::to_string(S_CGS) + val_str(CGS));
-    if (is::poly) J.line("obs " + std::to_string(S_GS) + val_str(GS));
-    if (is::grid) J.line("obs " + std::to_string(S_GS) + val_str(GGS));
+    if (aux_live[0]) J.line("obs " + std::to_string(S_CS) + val_str(CS));
+    if (aux_live[1]) J.line("obs " + std::to_string(S_CGS) + val_str(CGS));
+    if (is::poly && aux_live[2]) J.line("obs " + std::to_string(S_GS) + val_str(GS));
+    if (is::grid && aux_live[2]) J.line("obs " + std::to_string(S_GS) + val_str(GGS));
   }
   int pick() { return (int)r.below(NP); }
   // argument slot: the receiver itself with probability 2/5
   int pick_arg(int d) { return r.chance(2, 5) ? d : pick(); }
 
+  bool aux_live[3] = { false, false, false };
   void init() {
+    J.line(step_line("new", "aux", {S_CS}, {}, "")); CS = shape_cs(r, n, sh, 3); J.line("res" + val_str(CS)); aux_live[0] = true; finish("-", "-");
+    J.line(step_line("new", "aux", {S_CGS}, {}, "")); CGS = rnd_cgs(r, n, 2, !(is::grid || is::prod)); J.line("res" + val_str(CGS)); aux_live[1] = true; finish("-", "-");
+    if (is::poly) { J.line(step_line("new", "aux", {S_GS}, {}, "")); GS = rnd_gs(r, n, is::nnc, 3); J.line("res" + val_str(GS)); aux_live[2] = true; finish("-", "-"); }
+    if (is::grid) { J.line(step_line("new", "aux", {S_GS}, {}, "")); GGS = rnd_ggs(r, n, 3); J.line("res" + val_str(GGS)); aux_live[2] = true; finish("-", "-"); }
     for (int i = 0; i < NP; ++i) fresh(i, X[i], Tr<D>::make(r, n), "random");
-    J.line(step_line("new", "aux", {S_CS}, {}, "")); CS = shape_cs(r, n, sh, 3); J.line("res" + val_str(CS)); finish("-", "-");
-    J.line(step_line("new", "aux", {S_CGS}, {}, "")); CGS = rnd_cgs(r, n, 2, !(is::grid || is::prod)); J.line("res" + val_str(CGS)); finish("-", "-");
-    if (is::poly) { J.line(step_line("new", "aux", {S_GS}, {}, "")); GS = rnd_gs(r, n, is::nnc, 3); J.line("res" + val_str(GS)); finish("-", "-"); }
-    if (is::grid) { J.line(step_line("new", "aux", {S_GS}, {}, "")); GGS = rnd_ggs(r, n, 3); J.line("res" + val_str(GGS)); finish("-", "-"); }
   }
 
   // bring every member back to the dimension of the history
   void fix_dims() {
     for (int i = 0; i < NP; ++i) {
       dimension_type m = X[i]->space_dimension();
-      if (m > n) op1("remove_higher_space_dimensions", i, *X[i], [&](D& x) { x.remove_higher_space_dimensions(n); });
+      if (m > n) {
+        // Grid::remove_higher_space_dimensions is broken on minimized generators (KF-C05-14, crashes):
+        // grids and products with a grid component drop the dimensions by name instead
+        if constexpr (is::grid || is::prod)
+          op1("remove_space_dimensions(higher)", i, *X[i], [&](D& x) { Variables_Set vs; for (dimension_type k = n; k < m; ++k) vs.insert(Variable(k)); x.remove_space_dimensions(vs); });
+        else op1("remove_higher_space_dimensions", i, *X[i], [&](D& x) { x.remove_higher_space_dimensions(n); });
+      }
       else if (m < n) op1("add_space_dimensions_and_embed", i, *X[i], [&](D& x) { x.add_space_dimensions_and_embed(n - m); });
     }
   }
